@@ -10,6 +10,7 @@ S (schedules): N in {2,3} threads perform the first call on a 'single' class thr
 """
 import gc
 import itertools
+import time
 import threading
 import weakref
 
@@ -34,9 +35,11 @@ FACTS = {}      # case id -> {"inits": [...serials], "creator_calls": n, "refs":
 
 def make_class(cid, shape, mode, creator_script):
     import Pyro5.api as api
-    facts = FACTS[cid] = {"inits": [], "creator_calls": 0, "refs": {}}
+    facts = FACTS[cid] = {"inits": [], "creator_calls": 0, "refs": {}, "notes": {}}
 
     def __init__(self):
+        if shape == "slowinit":
+            time.sleep(0.02)        # construction takes a moment (stimulus only: nothing is judged by the clock)
         with LOCK:
             self.serial = next(SERIAL)
             facts["inits"].append(self.serial)
@@ -44,7 +47,11 @@ def make_class(cid, shape, mode, creator_script):
 
     def who(self):
         return self.serial
-    ns = {"__init__": __init__, "who": who}
+
+    def note(self, token):
+        with LOCK:
+            facts["notes"][token] = self.serial
+    ns = {"__init__": __init__, "who": who, "note": api.oneway(note)}
     if shape in ("len0", "len0+bool"):
         ns["__len__"] = lambda self: 0
     if shape in ("boolfalse", "len0+bool"):
@@ -56,16 +63,18 @@ def make_class(cid, shape, mode, creator_script):
     C = api.expose(C)
     creator = None
     if creator_script is not None:
-        def creator(clazz):
+        def creator(clazz=None):
             with LOCK:
                 facts["creator_calls"] += 1
                 n = facts["creator_calls"]
             act = creator_script[(n - 1) % len(creator_script)] if creator_script else "ok"
             if act == "raise":
                 raise RuntimeError("creator fails on attempt %d" % n)
+            if act == "typeerror":
+                raise TypeError("creator fails on attempt %d with a TypeError of its own" % n)
             if act == "wrongtype":
                 return object()
-            return clazz()
+            return (clazz if clazz is not None else C)()
     C = api.behavior(instance_mode=mode, instance_creator=creator)(C)
     return C
 
@@ -73,7 +82,7 @@ def make_class(cid, shape, mode, creator_script):
 # ------------------------------------------------------------------------------------------------
 # H: histories
 # ------------------------------------------------------------------------------------------------
-step = st.one_of(st.tuples(st.just("call"), st.integers(0, 2)), st.tuples(st.just("call"), st.integers(0, 2)),
+step = st.one_of(st.tuples(st.just("call"), st.integers(0, 2)), st.tuples(st.just("call"), st.integers(0, 2)), st.tuples(st.just("oneway"), st.integers(0, 2)),
                  st.tuples(st.just("close"), st.integers(0, 2)), st.tuples(st.just("abort"), st.integers(0, 2)),
                  st.tuples(st.just("open"), st.integers(0, 2))).map(list)
 
@@ -82,8 +91,8 @@ def h_case():
     return st.fixed_dictionaries({
         "kind": st.just("H"),
         "mode": st.sampled_from(["single", "session", "percall"]),
-        "shape": st.sampled_from(["truthy", "truthy", "len0", "boolfalse", "len0+bool", "eqhash"]),
-        "creator": st.one_of(st.none(), st.just(["ok"]), st.lists(st.sampled_from(["ok", "ok", "raise", "wrongtype"]), min_size=1, max_size=4)),
+        "shape": st.sampled_from(["truthy", "truthy", "len0", "boolfalse", "len0+bool", "eqhash", "slowinit"]),
+        "creator": st.one_of(st.none(), st.just(["ok"]), st.lists(st.sampled_from(["ok", "ok", "raise", "wrongtype", "typeerror"]), min_size=1, max_size=4)),
         "steps": st.lists(step, min_size=1, max_size=14),
         "ser": st.sampled_from(["serpent", "marshal", "json", "msgpack"]),
     })
@@ -128,6 +137,18 @@ def run_h(case, servertype, keep):
     model = {"single": None, "session": {}, "seen": set(), "attempts": 0, "created": 0}
     falsy = case["shape"] in ("len0", "boolfalse", "len0+bool")
     ended_sessions = []
+    pending_ended = []
+    dirty = set()           # connections whose last request was a oneway call: the client does not know yet whether the server has seen it
+
+    def barrier(p):
+        """a synchronous request on the same connection (to the daemon's own object): when it returns, the server has taken
+        up every earlier request of that connection"""
+        try:
+            p._pyroInvoke("ping", [], {}, objectId="Pyro.Daemon")
+        except Exception:
+            pass
+    oneway_expect = []      # (token, serial | ("pending", token) | "fresh")
+    resolved = {}           # token of a creating oneway call -> serial seen by the next synchronous call
     try:
         for n, (op, i) in enumerate(case["steps"]):
             if op == "open":
@@ -136,6 +157,9 @@ def run_h(case, servertype, keep):
                     conns[i]._pyroBind()
             elif op in ("close", "abort"):
                 if i in conns:
+                    if i in dirty:
+                        barrier(conns[i])
+                        dirty.discard(i)
                     before = srv.daemon.v_disconnect_count()
                     had_conn = conns[i]._pyroConnection is not None
                     if op == "abort" and had_conn:
@@ -152,7 +176,9 @@ def run_h(case, servertype, keep):
                     if had_conn:
                         live.wait_for(lambda: srv.daemon.v_disconnect_count() > before, 20)
                     serial = model["session"].pop(i, None)
-                    if serial is not None:
+                    if type(serial) is tuple:
+                        pending_ended.append(serial[1])
+                    elif serial is not None:
                         ended_sessions.append(serial)
             else:
                 if i not in conns:
@@ -167,11 +193,37 @@ def run_h(case, servertype, keep):
                     if script is not None:
                         act = script[(model["attempts"] - 1) % len(script)] if script else "ok"
                         expect_fail = act != "ok"
+                label = "step %d %s on connection %d" % (n, op, i)
+                if op == "oneway":
+                    # nothing comes back; which instance served it is recorded by the method itself under this token
+                    token = "n%d" % n
+                    dirty.add(i)
+                    try:
+                        p.note(token)
+                    except Exception as x:
+                        viol("call-failed", "%s failed with %r" % (label, x))
+                        break
+                    if script is not None and need_creation:
+                        # the scripted creator counts its attempts: keep their order across connections the one the model assumes
+                        barrier(p)
+                        dirty.discard(i)
+                    if expect_fail:
+                        continue
+                    if need_creation:
+                        model["created"] += 1
+                        if mode == "single":
+                            model["single"] = ("pending", token)
+                        elif mode == "session":
+                            model["session"][i] = ("pending", token)
+                        oneway_expect.append((token, ("pending", token) if mode != "percall" else "fresh"))
+                    else:
+                        oneway_expect.append((token, model["single"] if mode == "single" else model["session"][i]))
+                    continue
+                dirty.discard(i)
                 try:
                     got = ("ok", p.who())
                 except Exception as x:
                     got = ("err", x)
-                label = "step %d call on connection %d" % (n, i)
                 if expect_fail:
                     if got[0] == "ok":
                         viol("failed-creation-served", "%s: the creator failed/returned a wrong type but the call returned %r" % (label, got[1]))
@@ -192,12 +244,57 @@ def run_h(case, servertype, keep):
                         model["session"][i] = serial
                 else:
                     want = model["single"] if mode == "single" else model["session"][i]
+                    if type(want) is tuple:
+                        # the instance was created by a oneway call: this is the first time its serial becomes visible
+                        if serial in model["seen"]:
+                            viol("instance-not-fresh:" + mode, "%s: the instance created by the preceding oneway call has serial %r seen before" % (label, serial))
+                        model["seen"].add(serial)
+                        resolved[want[1]] = serial
+                        want = serial
+                        if mode == "single":
+                            model["single"] = serial
+                        else:
+                            model["session"][i] = serial
                     if serial != want:
                         sig = ("falsy-instance-recreated" if falsy and serial not in model["seen"] else "wrong-instance:" + mode)
                         viol(sig, "%s: served by instance %r, the %s instance is %r" % (label, serial, mode, want))
                         model["seen"].add(serial)
                         break
         # global accounting
+        if not V:
+            for i in sorted(dirty):
+                barrier(conns[i])
+            if oneway_expect:
+                live.join_oneway_threads(30)
+            with LOCK:
+                notes = dict(facts["notes"])
+            fresh_seen = set()
+            pending_serial = {}
+            for token, want in oneway_expect:
+                got_serial = notes.get(token)
+                if got_serial is None:
+                    continue            # (whether a oneway call is carried out at all is not this property)
+                if type(want) is tuple:
+                    creating_token = want[1]
+                    want = resolved.get(creating_token)
+                    if want is None:
+                        # no synchronous call ever showed this instance: the oneway calls that used it must agree among themselves
+                        if creating_token in pending_serial:
+                            want = pending_serial[creating_token]
+                        else:
+                            if got_serial in model["seen"]:
+                                viol("instance-not-fresh:" + mode, "oneway call %s that had to create its instance was served by %r seen before" % (token, got_serial))
+                            model["seen"].add(got_serial)
+                            pending_serial[creating_token] = got_serial
+                            if creating_token in pending_ended:
+                                ended_sessions.append(got_serial)
+                            continue
+                if want == "fresh":
+                    if got_serial in model["seen"] or got_serial in fresh_seen:
+                        viol("instance-not-fresh:" + mode, "oneway call %s in percall mode was served by instance %r that served another call" % (token, got_serial))
+                    fresh_seen.add(got_serial)
+                elif got_serial != want:
+                    viol("wrong-instance:oneway:" + mode, "oneway call %s was served by instance %r, the %s instance is %r" % (token, got_serial, mode, want))
         if not V:
             with LOCK:
                 inits = list(facts["inits"])
@@ -326,7 +423,7 @@ def run_case(case, servertype=None, keep=False):
 def _h_nontrivial(case):
     calls = {}
     for op, i in case["steps"]:
-        if op == "call":
+        if op in ("call", "oneway"):
             calls[i] = calls.get(i, 0) + 1
     multi = len(calls) >= 2 and max(calls.values()) >= 2
     return multi or case["shape"] in ("len0", "boolfalse", "len0+bool") or bool(case["creator"] and any(a != "ok" for a in case["creator"]))
